@@ -27,7 +27,10 @@
 (*                                                                         *)
 (* Admissibility for C13 (copied from the property text): all-Dirichlet    *)
 (* always; 2D: any Dirichlet / Neumann mix; 3D: no two Neumann boundary    *)
-(* faces share an edge (computed on the incidence fn).                     *)
+(* faces share an edge (computed on the incidence fn: a face is a node     *)
+(* LOOP of any length, so grids whose faces have different node counts -   *)
+(* triangular prisms: triangles and quadrilaterals - are covered; the      *)
+(* exact normals / centres of GridGeom are those of planar polygons).      *)
 (*                                                                         *)
 (* Model laws (checked by TLC in MechOracleEnum on reference grids and in  *)
 (* J_MechOracle on every judged grid): the signed exact tractions of a     *)
@@ -89,6 +92,7 @@ CellSumsZero(Gr, tab) == \A c \in 1..NCells(Gr) :
 
 \* ---- boundary faces, admissible boundary-type assignments ------------------------------------------------
 BoundaryFaces(Gr, E) == {f \in 1..NFaces(Gr) : Cardinality(E.f2c[f]) = 1}
+\* the edges of face f: consecutive nodes of its loop (3D; any number of nodes per face, mixed within one grid)
 EdgesOf(Gr, f) == LET k == Len(Gr.fn[f]) IN {{Gr.fn[f][i], Gr.fn[f][(i % k) + 1]} : i \in 1..k}
 ShareEdge(Gr, a, b) == EdgesOf(Gr, a) \cap EdgesOf(Gr, b) # {}
 \* neu: the set of Neumann faces; every other boundary face is Dirichlet
